@@ -21,11 +21,12 @@ type Feeder struct {
 }
 
 // StartFeeder publishes to path with the given credentials (Authorization header placement).
-func StartFeeder(rtspAddr, path string, cr Creds, period time.Duration) (*Feeder, error) {
+// A feeder that the server refuses is reported with its outcome (OutDenied: the server answered 401).
+func StartFeeder(rtspAddr, path string, cr Creds, period time.Duration) (*Feeder, string, error) {
 	c, rc, medi := RTSPPublish(rtspAddr, path, cr, RTSPOpts{Placement: "hdr"})
 	if c.Outcome != OutOK {
 		c.Close()
-		return nil, fmt.Errorf("feeder of %s: %s", path, c.Err)
+		return nil, c.Outcome, fmt.Errorf("feeder of %s: %s", path, c.Err)
 	}
 	f := &Feeder{C: c, rc: rc, medi: medi, stop: make(chan struct{}), done: make(chan struct{})}
 	go func() {
@@ -43,7 +44,7 @@ func StartFeeder(rtspAddr, path string, cr Creds, period time.Duration) (*Feeder
 			}
 		}
 	}()
-	return f, nil
+	return f, OutOK, nil
 }
 
 // Stop stops writing and disconnects the publisher.
